@@ -220,6 +220,8 @@ theorem id_bound (dec : List Nat) (cts : List Bytes) (pol : Policy) (lf strict :
     · rw [← hr.2]
     · split at hr <;> simp at hr
       rw [← hr.2]
+    · split at hr <;> simp at hr
+      rw [← hr.2]
   have hweb : ∀ reqs, (match resolveWeb dec cts pol strict d srv with
       | (reqs, .ok id) => ((reqs, .ok { docID := id }) : List Req × Res ResolveResult)
       | (reqs, .err e) => (reqs, .err e)
